@@ -199,6 +199,25 @@ def step (s : St) (toks : List String) : St × String :=
     | some now, some fl => apply s .reopen now fl
     | _, _ => (s, "bad-op")
   | ["SNAP"] => (s, snapStr s)
+  -- real-clock cases: `AT` only moves the real clock; `STAMPS base` lists the timestamp-named files
+  -- as offsets (seconds within the minute of the base stamp), `+k` restart number, `z` compressed
+  | ["AT", _] => (s, "ok")
+  | ["STAMPS", base] =>
+    match base.toNat? with
+    | some base =>
+      let es : List (Nat × Nat × Bool) := s.st.dir.filterMap (fun e =>
+        match e.1.ifx with
+        | some (.ts k r) => some (k - base, (match r with | some n => n + 1 | none => 0), e.1.gz)
+        | _ => none)
+      let le (a b : Nat × Nat × Bool) : Bool :=
+        a.1 < b.1 || (a.1 == b.1 && (a.2.1 < b.2.1 || (a.2.1 == b.2.1 && (!a.2.2 || b.2.2))))
+      let ins (x : Nat × Nat × Bool) (l : List (Nat × Nat × Bool)) : List (Nat × Nat × Bool) :=
+        (l.takeWhile (fun y => le y x)) ++ x :: (l.dropWhile (fun y => le y x))
+      let sorted := es.foldr ins []
+      let show1 (a : Nat × Nat × Bool) : String :=
+        toString a.1 ++ (if a.2.1 = 0 then "" else "+" ++ toString (a.2.1 - 1)) ++ (if a.2.2 then "z" else "")
+      (s, if sorted.isEmpty then "-" else ",".intercalate (sorted.map show1))
+    | none => (s, "bad-op")
   | ["READ"] => (s, bytesToHex (readAll s.st.dir))
   | ["PARTS"] =>
     let ps := (parts s.st.dir).map (fun p => toString p.length)
